@@ -179,14 +179,9 @@ theorem extractCharSet_single (cap : Bool) (e : Expr) (h : WF e) (hs : e.isSingl
   | lit c =>
     simp only [isSingleCodepoint, cfgPlain, Bool.and_eq_true, beq_iff_eq] at hs
     have hlen : (flat c).length = 1 := by rw [← charCount_flat]; exact hs.1
-    obtain ⟨x, rfl⟩ := single_literal c h hlen
-    obtain ⟨s, _, _, hsc, hg⟩ := h _ List.mem_cons_self
-    have : s = [x] := by
-      have := congrArg Grapheme.value hg
-      simpa [value_ofStr] using this.symm
-    subst this
+    obtain ⟨x, rfl, _, hsc⟩ := single_literal c h hlen
     simp only [extractCharSet, List.head?_cons, value_ofStr]
-    exact ⟨by simp, by intro y hy; simp only [List.mem_singleton] at hy; subst hy; exact hsc _ (by simp), by simp⟩
+    exact ⟨by simp, by intro y hy; simp only [List.mem_singleton] at hy; subst hy; exact hsc, by simp⟩
   | alt os => simp [isSingleCodepoint] at hs
   | cat a b => simp [isSingleCodepoint] at hs
   | rep e q => simp [isSingleCodepoint] at hs
